@@ -77,6 +77,7 @@ def evaltree(m, t):
 
 
 _UF_MEMO = {}
+engine.RESET_HOOKS.append(_UF_MEMO.clear)
 
 
 def _has_uf(t):
@@ -163,8 +164,10 @@ def run_job(job):
         if pathno % validate_every == 0 or pathno <= 3:
             m = E.model()
             if m is None:
-                res["witness_skipped"] += 1
-                return {}
+                # the path condition of a path that was explored to its end is unsatisfiable: the re-execution mis-aligned with the
+                # decision tree (non-deterministic harness / simplification).  Nothing derived from this job can be trusted.
+                res["inconclusive"].append(dict(reason="unsat-path", detail="explored path has an unsatisfiable path condition (executor mis-alignment)", path=E.path_descr()))
+                return {"stop": True}
             case = evaltree(m, out["case"])
             case["h"] = job["h"]; case["module"] = job["module"]
             v = rc.run(case)
